@@ -83,6 +83,8 @@ def gen_dataset(rng, prof):
     """prof: dict of knobs: pos_hops (bool), transferable (bool), loops (float), forbid (float), nmax, base_hour,
     grid (snap every time, walk and waiting value to a multiple of it so that guards meet their equality points)"""
     d = Dataset()
+    if prof.get("family") == "pair":
+        return gen_pair_dataset(rng, prof)
     if prof.get("grid"):
         return gen_dataset_grid(rng, prof)
     n = rng.randint(prof.get("nmin", 3), prof.get("nmax", 9))
@@ -113,7 +115,7 @@ def gen_dataset(rng, prof):
             rows.append((x, 0, 0))
         rfp[x] = rows
     d.rfp = rfp
-    nl = rng.randint(1, prof.get("lmax", 5))
+    nl = rng.randint(prof.get("lmin", 1), prof.get("lmax", 5))
     for l in range(1, nl + 1):
         mode = 0 if (prof.get("transferable", False) and rng.chance(prof.get("ptransferable", 0.15))) else rng.choice([1, 1, 2, 2, 3, 4])
         d.lines.append((l, rng.randint(1, 2), mode))
@@ -126,6 +128,23 @@ def gen_dataset(rng, prof):
             pid += 1
             k = rng.randint(2, min(6, n + 1))
             nodes = []
+            if d.paths and rng.chance(prof.get("shared", 0.0)):
+                # the path shares a run of 2-3 consecutive stops, in the same order, with an earlier path, between stops of
+                # its own: two vehicles that can be changed at SEVERAL common stops (journey clean-up: which common stop is
+                # usable depends on the boarding / alighting permissions at each of them)
+                src = rng.choice(d.paths)[2]
+                if len(src) >= 2:
+                    m = rng.randint(2, min(3, len(src)))
+                    i0 = rng.randint(0, len(src) - m)
+                    chunk = src[i0:i0 + m]
+                    own = [x for x in d.nodes if x not in chunk]
+                    pre = rng.sample(own, min(len(own), rng.randint(0, 2)))
+                    own2 = [x for x in own if x not in pre]
+                    suf = rng.sample(own2, min(len(own2), rng.randint(0, 2)))
+                    cand = pre + chunk + suf
+                    if len(cand) >= 2 and all(cand[i] != cand[i + 1] for i in range(len(cand) - 1)):
+                        nodes = cand
+                        k = len(nodes)
             while len(nodes) < k:
                 if nodes and rng.chance(prof.get("loops", 0.2)) and len(nodes) >= 2:
                     c = rng.choice(nodes[:-1])   # revisit an earlier stop
@@ -192,6 +211,78 @@ def gen_dataset(rng, prof):
     # a fourth scenario AFTER a restricted one: unrestricted half of the time (a loader that lets lists of one scenario leak
     # into the next is only visible on a later, less restricted scenario)
     d.scens.append((4, restricted() if rng.chance(0.5) else [[1, 2], [], [], [], [], [], [], [], []]))
+    return d
+
+
+def gen_pair_dataset(rng, prof):
+    """Family aimed at the journey clean-up rewrites (optimize_journey.cpp: CSL / BTS / GTF / CSS): two vehicles whose paths
+    share a run S of 1-3 stops (same order, reversed, or partly), each with stops of its own before and after the run, the
+    second passing after the first; an optional third vehicle going on from the second one's end (through S again half of the
+    time).  Boarding / alighting is forbidden at about half of the shared stops, independently per vehicle, so that which
+    common stop a rewrite may use differs from stop to stop; footpaths from the first vehicle's later stops to the second
+    one's earlier stops make many different transfers possible.  Random journeys over it (gen_journey) board and alight at
+    every position relative to the shared run."""
+    d = Dataset()
+    m = rng.randint(1, 3)
+    p1, q1, p2, q2 = rng.randint(1, 2), rng.randint(1, 2), rng.randint(1, 2), rng.randint(1, 2)
+    third = rng.chance(0.4)
+    n = m + p1 + q1 + p2 + q2 + (1 if third else 0)
+    ids = rng.sample(list(range(1, n + 1)), n)
+    S, rest = ids[:m], ids[m:]
+    P1, rest = rest[:p1], rest[p1:]
+    Q1, rest = rest[:q1], rest[q1:]
+    P2, rest = rest[:p2], rest[p2:]
+    Q2, rest = rest[:q2], rest[q2:]
+    k = rng.randint(0, 9)
+    S2 = list(S) if k < 6 else (S[::-1] if k < 8 else S[:max(1, m - 1)])
+    paths = [P1 + S + Q1, P2 + S2 + Q2]
+    if third:
+        paths.append([Q2[-1]] + (list(S) if rng.chance(0.5) else []) + rest[:1])
+    d.nodes = sorted(ids)
+    fp = {x: [(x, 0, 0)] for x in d.nodes}
+    g = prof.get("grid") or 60
+    for a in S + Q1:
+        for b in P2 + S2:
+            if a != b and rng.chance(0.6):
+                w, dist = rng.choice([0, g, 2 * g]), rng.randint(0, 900)
+                fp[a].append((b, w, dist))
+                if rng.chance(0.5):
+                    fp[b].append((a, w, dist))
+    d.fp = fp
+    rfp = {}
+    for x in d.nodes:
+        rows = []
+        for mm in d.nodes:
+            for (t, w, dist) in fp[mm]:
+                if t == x:
+                    rows.append((mm, w, dist))
+        rows.sort(key=lambda r: (0 if r[0] == x else 1))
+        rows.append((x, 0, 0))
+        rfp[x] = rows
+    d.rfp = rfp
+    base = rng.choice([5, 8, 9, 12, 17, 22]) * 3600
+    t = base
+    tid = 0
+    shared = set(S)
+    for li, nodes in enumerate(paths):
+        d.lines.append((li + 1, rng.randint(1, 2), rng.choice([1, 2, 3])))
+        dists = [rng.randint(50, 2000) for _ in range(len(nodes) - 1)] if rng.chance(0.7) else []
+        d.paths.append((li + 1, li + 1, nodes, dists))
+        for rep in range(rng.randint(1, 2)):
+            tid += 1
+            tt = t + rep * 5 * g
+            times = []
+            for i, x in enumerate(nodes):
+                dwell = rng.choice([0, 0, g])
+                pf = 0.5 if x in shared else 0.1
+                cb = 0 if (rng.chance(pf) and i > 0) else 1
+                cu = 0 if (rng.chance(pf) and i < len(nodes) - 1) else 1
+                times.append((tt, tt + dwell, cb, cu))
+                tt += dwell + rng.choice([g, 2 * g, 5 * g])
+            d.trips.append((tid, li + 1, rng.randint(1, 2), times))
+        t = max(x[-1][1] for (_, pth, _, x) in [(a, b, c, e) for (a, b, c, e) in d.trips if b == li + 1]) + rng.choice([5 * g, 10 * g, 15 * g])
+    for sid in (1, 2, 3, 4):
+        d.scens.append((sid, [[1, 2], [], [], [], [], [], [], [], []]))
     return d
 
 
@@ -288,7 +379,7 @@ def plan_journey(rng, d, minw):
     return start, t0, n, t
 
 
-def gen_journey(rng, d, minw, maxlegs=4):
+def gen_journey(rng, d, minw, maxlegs=4, pstop=0.25):
     """a random VALID journey (not an optimal one): rides alternating with footpath walks, every boarding
     at least minw after the traveller is ready.  Returns (accnode, egrnode, legs) with legs =
     (trip, boardSeq, alightSeq, walkAfter, distAfter)."""
@@ -309,7 +400,7 @@ def gen_journey(rng, d, minw, maxlegs=4):
             break
         e = rng.choice(later)
         legs.append([b[0], b[1], e[1], 0, 0])
-        if len(legs) >= maxlegs or rng.chance(0.25):
+        if len(legs) >= maxlegs or rng.chance(pstop):
             break
         rows = d.fp.get(e[3], [])
         if not rows:
@@ -374,7 +465,7 @@ def gen_case(rng, prof, nq):
             out.append("access %s %s" % (q_text(q), rows_text(acc if fwd else egr)))
     for _ in range(prof.get("njourneys", 6)):
         minw = rng.choice([0, 60, 180])
-        j = gen_journey(rng, d, minw)
+        j = gen_journey(rng, d, minw, pstop=prof.get("pstop", 0.25))
         if j:
             accnode, egrnode, legs = j
             out.append("optimize %d %d %d %d %d %d %d %d %s" % (minw, accnode, rng.choice([0, 60]), 10, egrnode, rng.choice([0, 60]), 10,
@@ -409,6 +500,14 @@ PROFILES = {
     # foot, so that forward and reverse footpath lists are both exercised (loader: reverse lists are derived)
     "asymfp": dict(pos_hops=True, transferable=False, nmin=4, nmax=7, lmax=5, tmax=3, loops=0.1, forbid=0.05, pfp=0.55,
                    pback=0.6, asym=0.85, maxfws=[-1, -1, -1, -1, 600]),
+    # lines sharing runs of consecutive stops, many forbidden boardings / alightings: the clean-up rewrites have several
+    # common stops to choose from and must test the permissions of each
+    "shared": dict(pos_hops=True, transferable=False, nmin=5, nmax=7, lmin=2, lmax=4, tmax=3, loops=0.05, forbid=0.3, pfp=0.5,
+                   shared=0.8, grid=60, maxfws=[-1, -1, -1, 600], njourneys=40),
+    # two (three) vehicles sharing a run of stops with forbidden boardings / alightings: every clean-up rewrite case with
+    # several candidate stops (see gen_pair_dataset)
+    "pairfam": dict(family="pair", pos_hops=True, transferable=False, grid=60, minws=[0, 60, 60, 180], maxfws=[-1, -1, -1, 600],
+                    njourneys=150, pplan=0.8, palt=0.35, pstop=0.03),
     # zero-time hops and zero waiting (termination)
     "zero": dict(pos_hops=False, transferable=False, nmin=3, nmax=5, lmax=4, loops=0.4, forbid=0.05, pfp=0.3,
                  grid=300, minws=[0, 0, 300]),
